@@ -91,9 +91,23 @@ Definition convert (c : cell) : option Z :=
 Fixpoint map2 {A B C} (f : A -> B -> C) (l : list A) (m : list B) : list C :=
   match l, m with a :: l', b :: m' => f a b :: map2 f l' m' | _, _ => [] end.
 
-(* the generated columns of [row] recomputed from [row] *)
-Definition fill_generated (sch : list col) (row : list cell) : list cell :=
-  map2 (fun c x => match gen c with Some e => cell_of_opt (eval_term row e) | None => x end) sch row.
+Fixpoint set_nth {A} (i : nat) (x : A) (l : list A) : list A :=
+  match i, l with
+  | O, _ :: l' => x :: l'
+  | S i', a :: l' => a :: set_nth i' x l'
+  | _, [] => []
+  end.
+
+(* the generated columns of [row] recomputed, left to right, each from the row with the earlier ones already in place
+   (a generated column may read an earlier generated column) *)
+Fixpoint fill_gen_from (sch : list col) (i : nat) (row : list cell) : list cell :=
+  match sch with
+  | [] => row
+  | c :: sch' =>
+      let row' := match gen c with Some e => set_nth i (cell_of_opt (eval_term row e)) row | None => row end in
+      fill_gen_from sch' (S i) row'
+  end.
+Definition fill_generated (sch : list col) (row : list cell) : list cell := fill_gen_from sch 0 row.
 
 (* row source: values as written, defaults, then generated columns from that row *)
 Definition source_row (sch : list col) (rs : list raw) : list cell :=
@@ -147,13 +161,6 @@ Fixpoint insert_rows (ign : bool) (sch : list col) (chks : list check) (rows : l
 
 (* ---- UPDATE ---- *)
 Inductive urhs := URaw (r : raw) | UTerm (e : term).
-
-Fixpoint set_nth {A} (i : nat) (x : A) (l : list A) : list A :=
-  match i, l with
-  | O, _ :: l' => x :: l'
-  | S i', a :: l' => a :: set_nth i' x l'
-  | _, [] => []
-  end.
 
 (* SetField.Eval: the right side evaluated on the working row, converted strictly *)
 Definition set_value (ign : bool) (sch : list col) (row : list cell) (i : nat) (rhs : urhs) : option cell :=
@@ -222,7 +229,40 @@ Fixpoint update_rows (ign : bool) (sch : list col) (chks : list check) (sets : l
 
 Inductive stmt :=
 | Insert (ign : bool) (rows : list (list raw))
-| Update (ign : bool) (sets : list (nat * urhs)) (wh : option Z).
+| Update (ign : bool) (sets : list (nat * urhs)) (wh : option Z)
+| Upsert (rs : list raw) (sets : list (nat * urhs)).   (* INSERT ... VALUES (one row) ON DUPLICATE KEY UPDATE sets *)
+
+(* insertIter.handleOnDuplicateKeyUpdate: SET expressions on the existing row, generated columns when it changed, the
+   checks (always), then the editor update; a NULL left in a NOT NULL column is refused by the storage layer *)
+Definition odku_row (sch : list col) (chks : list check) (sets : list (nat * urhs)) (old : list (option Z))
+  : outcome (list (option Z)) :=
+  match apply_sets false sch (map cell_of_opt old) sets with
+  | None => Failed EInvalid
+  | Some w =>
+      let w1 := if row_eqb (map convert w) old then w else fill_generated sch w in
+      if existsb (check_false w1) chks then Failed ECheck
+      else match nullability false sch w1 with
+           | None => Failed EInvalid
+           | Some w2 => Stored (map convert w2)
+           end
+  end.
+
+(* the table is read back in id order *)
+Fixpoint insert_by_id (r : list (option Z)) (t : table) : table :=
+  match t with
+  | [] => [r]
+  | x :: t' =>
+      match nth 0 r None, nth 0 x None with
+      | Some a, Some b => if a <? b then r :: t else x :: insert_by_id r t'
+      | _, _ => x :: insert_by_id r t'
+      end
+  end.
+
+Fixpoint replace_id (k : option Z) (r : list (option Z)) (t : table) : table :=
+  match t with
+  | [] => []
+  | x :: t' => if opt_eqb (nth 0 x None) k then r :: t' else x :: replace_id k r t'
+  end.
 
 (* a failing statement changes nothing *)
 Definition exec (sch : list col) (chks : list check) (t : table) (s : stmt) : table * result :=
@@ -231,6 +271,21 @@ Definition exec (sch : list col) (chks : list check) (t : table) (s : stmt) : ta
       match insert_rows ign sch chks rows t with inl t' => (t', ROk) | inr e => (t, RErr e) end
   | Update ign sets wh =>
       match update_rows ign sch chks sets wh t with inl t' => (t', ROk) | inr e => (t, RErr e) end
+  | Upsert rs sets =>
+      match insert_row false sch chks rs with
+      | Failed e => (t, RErr e)
+      | Skipped => (t, ROk)
+      | Stored r =>
+          match find (fun x => opt_eqb (nth 0 x None) (nth 0 r None)) t with
+          | None => (insert_by_id r t, ROk)
+          | Some old =>
+              match odku_row sch chks sets old with
+              | Stored r' => (replace_id (nth 0 r None) r' t, ROk)
+              | Skipped => (t, ROk)
+              | Failed e => (t, RErr e)
+              end
+          end
+      end
   end.
 
 Fixpoint run (sch : list col) (chks : list check) (t : table) (h : list stmt) : table :=
